@@ -192,6 +192,7 @@ class Executor:
     # -- atoms ---------------------------------------------------------------
     def ask_bool(self, key):
         if key in self.val:
+            self.order.append(key)
             return self.val[key]
         raise NeedAtom("bool", key)
 
@@ -390,9 +391,21 @@ class Executor:
         return Obj("f" + repr(src(node)))
 
     def e_ListComp(self, node, env):
+        if len(node.generators) == 1 and not node.generators[0].ifs:
+            it = self.ev(node.generators[0].iter, env)
+            if isinstance(it, Tup):
+                out = []
+                for item in it.items:
+                    e2 = dict(env)
+                    self.assign(node.generators[0].target, item, e2, node)
+                    out.append(self.ev(node.elt, e2))
+                return Tup(out, "list")
         return Obj("[" + src(node) + "]")
 
-    e_GeneratorExp = e_SetComp = e_DictComp = e_ListComp
+    def e_GeneratorExp(self, node, env):
+        return Obj("[" + src(node) + "]")
+
+    e_SetComp = e_DictComp = e_GeneratorExp
 
     def e_Lambda(self, node, env):
         return Obj("lambda:" + src(node))
@@ -596,6 +609,11 @@ class Executor:
             if fn in ("reversed", "range", "enumerate", "zip", "list", "tuple", "sorted", "sum", "str", "float", "set", "frozenset", "dict", "repr", "ord", "chr", "any", "all", "type", "next", "iter", "getattr", "hasattr", "print", "id", "map", "filter", "bytes", "bytearray", "slice"):
                 if fn in ("list", "tuple") and len(args) == 1 and isinstance(args[0], Tup):
                     return Tup(args[0].items, "list" if fn == "list" else "tuple")
+                if fn == "enumerate" and len(args) >= 1 and isinstance(args[0], Tup):
+                    start = int(args[1].const) if len(args) > 1 and isinstance(args[1], Lin) and args[1].is_int_const() else 0
+                    return Tup([Tup([Lin.k(i + start), it]) for i, it in enumerate(args[0].items)], "list")
+                if fn == "zip" and args and all(isinstance(a, Tup) for a in args):
+                    return Tup([Tup(list(t)) for t in zip(*[a.items for a in args])], "list")
                 if fn == "range" and all(isinstance(a, Lin) for a in args):
                     return Obj("range(" + ", ".join(vkey(a) for a in args) + ")")
                 k = f"{fn}(" + ", ".join(vkey(a) for a in args) + ")"
@@ -682,8 +700,8 @@ class Executor:
                 raise Unrecognised(f"unsupported statement {type(s).__name__}: {src(s)[:80]}")
             m(s, env)
 
-    def effect(self, kind, target, value, node):
-        self.effects.append((kind, target, value, getattr(node, "lineno", 0), "loop*" if self.loop_depth else ""))
+    def effect(self, kind, target, value, node, obj=None):
+        self.effects.append((kind, target, value, getattr(node, "lineno", 0), "loop*" if self.loop_depth else "", obj, node))
 
     def s_Pass(self, s, env):
         pass
@@ -703,13 +721,13 @@ class Executor:
             return
         if isinstance(s.value, (ast.Yield, ast.YieldFrom)):
             v = self.ev(s.value.value, env) if s.value.value is not None else Const(None)
-            self.effect("yield", "", vkey(v), s)
+            self.effect("yield", "", vkey(v), s, v)
             return
         self.ev(s.value, env)
 
     def e_Yield(self, node, env):
         v = self.ev(node.value, env) if node.value is not None else Const(None)
-        self.effect("yield", "", vkey(v), node)
+        self.effect("yield", "", vkey(v), node, v)
         return Const(None)
 
     def assign(self, target, value, env, node, kind="store"):
@@ -742,6 +760,13 @@ class Executor:
             return
         if isinstance(target, ast.Subscript):
             base = self.ev(target.value, env)
+            if isinstance(base, Tup) and not isinstance(target.slice, ast.Slice) and isinstance(target.value, ast.Name):
+                idx = self.ev(target.slice, env)
+                if isinstance(idx, Lin) and idx.is_int_const() and -len(base.items) <= int(idx.const) < len(base.items):
+                    items = list(base.items)
+                    items[int(idx.const)] = value
+                    env[target.value.id] = Tup(items, base.kind)
+                    return
             if isinstance(target.slice, ast.Slice):
                 k = f"{vkey(base)}[{src(target.slice)}]"
             else:
@@ -787,8 +812,8 @@ class Executor:
             n_eff = len(self.effects)
             self.assign(s.target, new, env, s, kind="store")
             if len(self.effects) > n_eff:
-                k, tgt, _, ln, lp = self.effects.pop()
-                self.effects.append(("aug", tgt, _opsym(s.op) + vkey(rhs), ln, lp))
+                k, tgt, _, ln, lp, ob, nd = self.effects.pop()
+                self.effects.append(("aug", tgt, _opsym(s.op) + vkey(rhs), ln, lp, ob, nd))
 
     def s_If(self, s, env):
         if self.truth(self.ev(s.test, env), s.test):
@@ -940,20 +965,20 @@ def _is_abstract(f: ast.FunctionDef):
 # ---------------------------------------------------------------------------
 # exploration driver
 # ---------------------------------------------------------------------------
-def explore(repo, stmts, env, *, integer=True, self_cls=None, feasibility=True, max_rows=MAX_ROWS, **kw):
+def explore(repo, stmts, env, *, integer=True, self_cls=None, feasibility=True, max_rows=MAX_ROWS, executor_cls=None, initial=None, stop_when=None, **kw):
     """
     Return the decision tree of ``stmts`` as a list of Rows.  ``env`` maps names (and
     attribute chains such as 'self.x') to abstract values; it is copied per row.
     """
     rows = []
-    stack = [({}, [])]
+    stack = [(dict(initial) if initial else {}, [])]
     n_runs = 0
     while stack:
         val, order = stack.pop()
         n_runs += 1
         if n_runs > max_rows * 4:
             raise Unrecognised("decision tree too large")
-        ex = Executor(repo, val, integer=integer, self_cls=self_cls, **kw)
+        ex = (executor_cls or Executor)(repo, val, integer=integer, self_cls=self_cls, **kw)
         e = dict(env)
         try:
             try:
@@ -970,7 +995,9 @@ def explore(repo, stmts, env, *, integer=True, self_cls=None, feasibility=True, 
                     continue
                 stack.append((v2, order + [na.key]))
             continue
-        rows.append(Row(val, ex.effects, exit_, e, ex.calls, order))
+        rows.append(Row(val, ex.effects, exit_, e, ex.calls, ex.order))
+        if stop_when is not None and stop_when(rows[-1]):
+            return rows
         if len(rows) > max_rows:
             raise Unrecognised("decision tree too large")
     return rows
@@ -1009,39 +1036,76 @@ def register_lin(key, lin):
     _LIN_REGISTRY[key] = lin
 
 
-def feasible(val: dict, box=4, max_atoms=5) -> bool:
+def feasible(val: dict, box=3, max_atoms=5) -> bool:
+    """Is there an integer model (in a small box) of all sign constraints of ``val``?
+    Constraints are split into connected components (shared atoms); each component is
+    decided separately and cached.  Components with more atoms than ``max_atoms`` are
+    assumed feasible (keeps rows, never drops one)."""
     cons = []
     for k, s in val.items():
         if k.startswith("sign:"):
             l = _LIN_REGISTRY.get(k)
             if l is None:
-                return True
-            cons.append((l, s))
+                continue
+            cons.append((k, l, s))
     if len(cons) <= 1:
         return True
-    atoms = sorted({a for l, _ in cons for a in l.terms})
-    if len(atoms) > max_atoms:
-        return True
-    ck = tuple(sorted((l.key(), s) for l, s in cons))
-    if ck in _feas_cache:
-        return _feas_cache[ck]
+    # connected components
+    comps = []
+    for c in cons:
+        atoms = set(c[1].terms)
+        merged = [c]
+        rest = []
+        for comp_atoms, comp in comps:
+            if comp_atoms & atoms:
+                atoms |= comp_atoms
+                merged.extend(comp)
+            else:
+                rest.append((comp_atoms, comp))
+        rest.append((atoms, merged))
+        comps = rest
+    for atoms, comp in comps:
+        if len(comp) <= 1:
+            continue
+        if len(atoms) > max_atoms:
+            continue
+        ck = tuple(sorted((k, s) for k, _, s in comp))
+        r = _feas_cache.get(ck)
+        if r is None:
+            r = _component_feasible(sorted(atoms), comp, box)
+            _feas_cache[ck] = r
+        if not r:
+            return False
+    return True
+
+
+def _component_feasible(atoms, comp, box):
+    from math import lcm
+
+    idx = {a: i for i, a in enumerate(atoms)}
+    rows = []
+    for _, l, s in comp:
+        den = 1
+        for c in list(l.terms.values()) + [l.const]:
+            den = lcm(den, c.denominator)
+        coefs = [0] * len(atoms)
+        for a, c in l.terms.items():
+            coefs[idx[a]] = int(c * den)
+        rows.append((coefs, int(l.const * den), s))
     rng = range(-box, box + 1)
-    ok = False
-    # half-integers allow for real-valued atoms (error rates) without changing integer feasibility much
-    for combo in itertools.product(rng, repeat=len(atoms)):
-        m = dict(zip(atoms, combo))
-        good = True
-        for l, s in cons:
-            v = l.const + sum(c * m[a] for a, c in l.terms.items())
-            sv = (v > 0) - (v < 0)
-            if sv != s:
-                good = False
+    n = len(atoms)
+    for combo in itertools.product(rng, repeat=n):
+        ok = True
+        for coefs, k, s in rows:
+            v = k
+            for i in range(n):
+                v += coefs[i] * combo[i]
+            if ((v > 0) - (v < 0)) != s:
+                ok = False
                 break
-        if good:
-            ok = True
-            break
-    _feas_cache[ck] = ok
-    return ok
+        if ok:
+            return True
+    return False
 
 
 # make ask_sign register forms so that feasibility can see them
